@@ -327,13 +327,8 @@ def run(ctx, R):
                                 t.slice) == x for t in n.targets):
                         sites.append(n)
             else:
-                for s in ctx.cg.calls_in(impl):
-                    c = s.node
-                    if isinstance(c.func, ast.Attribute) and c.func.attr == \
-                            mut and src(c.func.value) == x:
-                        sites.append(C.stmt_of(c))
-                    elif isinstance(c.func, ast.Name) and c.func.id == mut \
-                            and c.args and src(c.args[0]) == x:
+                for c, recv, meth in C.mutator_sites(ctx, impl):
+                    if src(recv) == x:
                         sites.append(C.stmt_of(c))
             R.ob('R5.2', cons + ':mutator-on-checked-object', bool(sites),
                  'the mutator (%s) is applied to %s, the object compared'
